@@ -23,7 +23,9 @@ and streaming k*S bytes (quick: 32 MiB vs 128 MiB; thorough: 64 MiB vs 1 GiB) fr
 sink (inputs of repair / extract are files under /verif/.work). Oracle: peak live heap measured by a counting global \
 allocator during the operation stays <= 96 MiB and peak(k*S) <= peak(S) + 64 KiB + 5 % + 32 bytes per additional non-contiguous run (the statement allows a term proportional to the number of runs); directed cases stream one file as many small contiguous pieces. A second family keeps the bytes \
 constant and multiplies the number of files by 4: growth must stay <= 2 KiB per additional file (the statement allows a term \
-proportional to the number of files). Non-trivial = size ratio >= 4 with the larger run >= 64 MiB, or file-count ratio >= 4; \
+proportional to the number of files). A third family measures the `mlar` process itself (peak resident set from wait4) for \
+create from a regular file / from a pipe given as /dev/stdin / with encryption, extract, repair and cat, with 8 MiB and \
+with 96 MiB of data: the larger run may exceed the smaller by 12 MiB + 25 %. Non-trivial = size ratio >= 4 with the larger run >= 64 MiB, or file-count ratio >= 4; \
 distinct = hash of the case";
 
 #[derive(Clone, Debug, Serialize, Deserialize)]
@@ -277,6 +279,110 @@ fn run_case_in_worker(c: &Case, thorough: bool) -> Result<(usize, usize), String
     Err(format!("HARNESS: worker ended with {:?} without a measurement", o.status))
 }
 
+// ------------------------------------------------------------ the mlar process
+
+/// One `mlar` run whose peak resident set is taken from wait4(): the command, what is fed to its stdin (bytes), and
+/// the label of the scenario. Scenarios are run with a small and a large amount of data.
+#[derive(Clone, Debug, Serialize, Deserialize)]
+pub struct CliCase {
+    /// 0 create from a regular file, 1 create from a pipe given as /dev/stdin, 2 extract (linear), 3 repair, 4 cat,
+    /// 5 create from a regular file with the encryption layer
+    pub scenario: u8,
+}
+
+/// run mlar, return (exit ok, peak RSS in KiB)
+fn mlar_rss(args: &[&str], cwd: &std::path::Path, feed: Option<u64>) -> Result<(bool, u64), String> {
+    use std::io::Write;
+    use std::process::{Command, Stdio};
+    let mut cmd = Command::new(crate::cli::mlar_path());
+    cmd.args(args).current_dir(cwd).stdout(Stdio::null()).stderr(Stdio::null());
+    cmd.stdin(if feed.is_some() { Stdio::piped() } else { Stdio::null() });
+    let mut child = cmd.spawn().map_err(|e| format!("HARNESS: cannot run mlar: {e}"))?;
+    let pid = child.id() as libc::pid_t;
+    let feeder = feed.map(|n| {
+        let mut stdin = child.stdin.take().unwrap();
+        std::thread::spawn(move || {
+            let block = vec![0xA5u8; 1 << 20];
+            let mut left = n;
+            while left > 0 {
+                let k = left.min(block.len() as u64) as usize;
+                // the pipe breaks when mlar exits without reading: that ends the feeding, nothing more
+                if stdin.write_all(&block[..k]).is_err() {
+                    break;
+                }
+                left -= k as u64;
+            }
+        })
+    });
+    let mut status: libc::c_int = 0;
+    let mut ru: libc::rusage = unsafe { std::mem::zeroed() };
+    let r = unsafe { libc::wait4(pid, &mut status, 0, &mut ru) };
+    if let Some(f) = feeder {
+        let _ = f.join();
+    }
+    if r != pid {
+        return Err("HARNESS: wait4 failed".into());
+    }
+    Ok((libc::WIFEXITED(status) && libc::WEXITSTATUS(status) == 0, ru.ru_maxrss as u64))
+}
+
+fn cli_scenario(c: &CliCase, st: &mut Stats) -> Result<(), String> {
+    let (small, big): (u64, u64) = (8 << 20, 96 << 20);
+    let name = ["create from a regular file", "create from a pipe (/dev/stdin)", "extract", "repair", "cat", "create with encryption"][(c.scenario % 6) as usize];
+    let mut rss = Vec::new();
+    for &size in &[small, big] {
+        let s = Scratch::new("c15cli");
+        let d = s.path.clone();
+        let write_input = |p: &std::path::Path| -> Result<(), String> {
+            use std::io::Write;
+            let mut f = std::io::BufWriter::new(std::fs::File::create(p).map_err(|e| format!("HARNESS: {e}"))?);
+            let block = crate::data::gen(DataClass::Random, 15, 1 << 20);
+            for _ in 0..(size >> 20) {
+                f.write_all(&block).map_err(|e| format!("HARNESS: {e}"))?;
+            }
+            Ok(())
+        };
+        let need_archive = matches!(c.scenario % 6, 2 | 3 | 4);
+        if c.scenario % 6 != 1 {
+            write_input(&d.join("big.bin"))?;
+        }
+        if need_archive {
+            let (ok, _) = mlar_rss(&["create", "-l", "-o", "a.mla", "big.bin"], &d, None)?;
+            if !ok {
+                return Err("HARNESS: mlar create (preparation) failed".into());
+            }
+        }
+        let (ok, kib) = match c.scenario % 6 {
+            0 => mlar_rss(&["create", "-l", "-o", "out.mla", "big.bin"], &d, None)?,
+            1 => mlar_rss(&["create", "-l", "-o", "out.mla", "/dev/stdin"], &d, Some(size))?,
+            2 => mlar_rss(&["extract", "-i", "a.mla", "-o", "out"], &d, None)?,
+            3 => mlar_rss(&["repair", "-i", "a.mla", "-l", "-o", "r.mla"], &d, None)?,
+            4 => mlar_rss(&["cat", "-i", "a.mla", "big.bin"], &d, None)?,
+            _ => {
+                let (k, _) = mlar_rss(&["keygen", "k"], &d, None)?;
+                if !k {
+                    return Err("HARNESS: mlar keygen failed".into());
+                }
+                mlar_rss(&["create", "-l", "encrypt", "-p", "k.pub", "-o", "out.mla", "big.bin"], &d, None)?
+            }
+        };
+        if !ok {
+            return Err(format!("HARNESS: `mlar` scenario '{name}' failed with {} MiB", size >> 20));
+        }
+        rss.push(kib);
+    }
+    st.eval(1);
+    st.nontrivial(c.scenario as u64 + 0xC15);
+    st.label(format!("mlar: {name}"));
+    st.sample(|| json!({"family": "mlar process", "scenario": name, "peak_rss_KiB_with_8_MiB": rss[0], "peak_rss_KiB_with_96_MiB": rss[1]}));
+    // resident set of a process: allow the allocator's slack, not a share of the 88 MiB of extra data
+    let allowed = rss[0] + (12 << 10) + rss[0] / 4;
+    if rss[1] > allowed {
+        return Err(format!("mlar, {name}: peak resident set {} MiB with 8 MiB of data, {} MiB with 96 MiB (allowed {} MiB)", rss[0] >> 10, rss[1] >> 10, allowed >> 10));
+    }
+    Ok(())
+}
+
 fn run(ctx: &Ctx) -> Report {
     let mut rep = Report::new(RULE);
     rep.assume("peak live heap is measured by the harness' counting global allocator in a worker process that runs nothing else; mmap'ed memory of the allocator itself is not counted");
@@ -352,11 +458,35 @@ fn run(ctx: &Ctx) -> Report {
     drop(stm);
     let f = failure.into_inner().unwrap();
     rep.stage_done("memory", st, t0.elapsed().as_secs_f64(), f);
+    // the mlar process itself, measured by the kernel
+    if std::path::Path::new(&crate::cli::mlar_path()).exists() {
+        let t1 = std::time::Instant::now();
+        let mut st = Stats::default();
+        let mut failure = None;
+        for sc in 0..6u8 {
+            let c = CliCase { scenario: sc };
+            if let Err(e) = cli_scenario(&c, &mut st) {
+                if e.starts_with("HARNESS") {
+                    rep.inconclusive = Some(e);
+                } else {
+                    failure = Some(Failure { stage: "mlar-process".into(), what: e, case: serde_json::to_value(&c).unwrap_or(Value::Null) });
+                }
+                break;
+            }
+        }
+        rep.stage_done("mlar-process", st, t1.elapsed().as_secs_f64(), failure);
+    } else {
+        rep.inconclusive = Some("mlar binary missing".into());
+    }
     crate::cli::cleanup_process_dir();
     rep
 }
 
 fn replay(ctx: &Ctx, _stage: &str, case: &Value) -> Result<(), String> {
+    if _stage == "mlar-process" {
+        let c: CliCase = serde_json::from_value(case.clone()).map_err(|e| format!("HARNESS: bad replay case: {e}"))?;
+        return cli_scenario(&c, &mut Stats::default());
+    }
     let c: Case = serde_json::from_value(case.clone()).map_err(|e| format!("HARNESS: bad replay case: {e}"))?;
     let (a, b) = run_case_in_worker(&c, ctx.tier == Tier::Thorough)?;
     judge(&c, a, b, ctx.tier == Tier::Thorough)
